@@ -16,7 +16,7 @@ CLAIMED = {
          "Seeded exploration of one or two tamper operators (bit flip, cut+FIN, drop, duplicate, swap, splice with a recorded same-key or other-key session, response swap, foreign client key, optional fallback address) at every structural position of real ss2022 client/server sessions through an on-path harness task over the simulated network; the oracle derives from the byte-level common prefix of written versus delivered ciphertext exactly which application bytes may be returned and how each stream must end, plus the handshake and fallback clauses. Sampling, not proof.",
          "ciphertext structure is taken from write boundaries (asserted by the harness); a cut exactly on an AEAD chunk boundary may end with EOF; the same-key donor session is recorded against the server under test; at most two operators per run."),
  "C03": ("DESIGN.md §6 C03",
-         "Seeded exploration of generated histories (clock steps down to 1 ns around the 30/31/60/61 s boundaries, client skew -31..+31 s, replays, junk, same-salt junk, 2-4 concurrent copies with a bystander that prunes the pool) against the real StreamServer.HandleStream/SaltPool on the simulated clock and network with statement-level pre-emption in saltpool.go/tcp.go; oracle: accepted-request set model plus the 30 s / 31 s rule on the real-valued difference. Found the 60-61 s replay window (repaired).",
+         "Seeded exploration of generated histories (clock steps down to 1 ns around the 30/31/60/61 s boundaries, client skew -31..+31 s, replays, junk, same-salt junk, 2-4 concurrent copies with a bystander that prunes the pool) against the real StreamServer.HandleStream/SaltPool on the simulated clock and network with statement-level pre-emption in saltpool.go/tcp.go; held connections (bytes arrive up to 5 min after the connection), timestamps up to 2^62 s away, and a second run class that drives the real SaltPool directly with the non-monotonic instants racing handshakes hand it (incl. 66 000 salts inside one window); oracle: accepted-request set model plus the 30 s / 31 s rule on the real-valued difference. Found the 60-61 s replay window (repaired).",
          "requests come from an independent harness encoder built on exported primitives; all copies of a concurrent group are presented at one simulated instant; the (30 s, 31 s) band is not judged."),
  "C04": ("DESIGN.md §6 C04",
          "Seeded histories (5-200 packets) driving the real SS2022 UDP server path and the real client unpacker for all eight window sizes, with packets from the real packers and from an independent SIP022 encoder, reordered, duplicated, delayed past the 30/60 s limits (simulated clock) and mixed with eleven attacker packet kinds plus exact replays; SlidingWindowFilter is additionally driven directly, including all length-6 orders over boundary alphabets; oracle: delivered-id set model.",
@@ -44,7 +44,7 @@ CLAIMED = {
          "Every generated handshake of the real socks5, httpproxy CONNECT and ssnone servers is driven by both the repository client and an RFC-written harness client over a fragmenting simulated transport (byte-wise writes, pipelined handshakes, read fragmentation) and checked for exact request and identity extraction, the credential gate, reply framing, the reply for every dial-result code, and a position-coded duplex stream after the reply including server-first data coalesced with it.",
          "sampled over addresses, credentials, method lists and fragmentations; the reply-code oracle accepts several RFC-reasonable replies where no exact counterpart exists; HTTP Basic limited to canonical encodings; no TLS."),
  "C08": ("DESIGN.md §6 C08",
-         "Seeded exploration of API/reload/save histories of the real cred.Manager bound to real ss2022 TCP and UDP servers on the simulated disk and clock: 1-4 concurrent management-API clients, file edits plus reload through the API and the SIGUSR1 function, statement-level pre-emption in cred/manager.go and ss2022/credstore.go. Oracles: porcupine linearizability against a nondeterministic user->key model that includes the store file; at quiescence, equality of accepted keys (real handshakes per key), listed keys and file keys, with user attribution and fresh-load. Found duplicate-key acceptance and the lock-split races (repaired).",
+         "Seeded exploration of API/reload/save histories of the real cred.Manager bound to real ss2022 TCP and UDP servers on the simulated disk and clock: 1-4 concurrent management-API clients, file edits plus reload through the API and the SIGUSR1 function, statement-level pre-emption in cred/manager.go and ss2022/credstore.go. Oracles: porcupine linearizability against a nondeterministic user->key model that includes the store file; at quiescence, equality of accepted keys (real handshakes per key), listed keys and file keys, with user attribution and fresh-load; plus a service-level run class for the reload-signal loop (rapid edit+SIGUSR1 sequences through the simulated signal seam). Found duplicate-key acceptance and the lock-split races (repaired).",
          "handlers are called through a ServeMux with httptest recorders, not over HTTP; SIGUSR1 is modelled by calling LoadFromFile; histories <= 40 operations; runs are partitioned into eight flavours."),
  "C16": ("DESIGN.md §6 C16",
          "The real httpproxy non-CONNECT path (407 loop, request and response forwarders, pipe, BidirectionalCopy) is exercised with generated pipelined conversations (1-20 requests) between an independent HTTP/1.1 client and scripted origin over a fragmenting simulated network; every message is compared at the origin (method, effective target, Host, end-to-end headers, body, announced trailers, absence of hop-by-hop, nominated, Upgrade and proxy-credential fields) and at the client (order, interim and final responses, bodies); end-of-connection conditions for host change, later CONNECT and close. Found and repaired the default User-Agent and the lost-final-after-1xx defects; two findings are listed as known.",
@@ -59,7 +59,7 @@ CLAIMED = {
          "Seeded exploration of one disk fault (kill, ENOSPC, EIO at any mutating operation and byte count of any debounced save) followed by a restart of a new manager on the surviving file, and of fault-free shutdown (cancel + Stop) at drawn debounce phases including pre-emption between any two statements of the save loop; oracle: the store loads as the previous or the new user set, handshakes accept exactly that set, the API keeps working, changes acknowledged before shutdown are on disk when Stop returns. Found the in-place rewrite, the dropped save on shutdown and the zero-byte store defects (repaired). Power-loss outcomes are counted only.",
          "disk is the simos model (page-cache view, single planned fault, writes cut at byte granularity); process death is modelled by abandoning the old manager; multi-fault sequences and fsync failures are not explored."),
  "C12": ("DESIGN.md §6 C12",
-         "The whole relay runs in the simulator (generic and mmsg paths): 1-5 UDP sessions are driven through lifecycle scenarios (stop while busy, idle out then stop, idle out + restart + stop, stop while sessions are being initialised) with the stop placed a drawn number of scheduling steps into live traffic; oracle: NAT sockets and relay goroutines are gone one NAT timeout after the last client datagram, a later datagram gets a working new session, Stop returns within 5 s of simulated time, afterwards no socket or goroutine of the service is left. Found the shutdown-deadline re-arm race (repaired).",
+         "The whole relay runs in the simulator (generic and mmsg paths): 1-5 UDP sessions are driven through lifecycle scenarios (stop while busy, idle out then stop, idle out + restart + stop, stop while sessions are being initialised; peers that keep talking to a silent client, destinations the relay's socket refuses (port 0), a SOCKS5 upstream with one relay port per association, a forged copy of a session's first packet) with the stop placed a drawn number of scheduling steps into live traffic; oracle: NAT sockets and relay goroutines are gone one NAT timeout after the last client datagram, a later datagram gets a working new session, Stop returns within 5 s of simulated time, afterwards no socket or goroutine of the service is left. Found the shutdown-deadline re-arm race (repaired).",
          "the stop bound asserted is 5 s (injected latencies <= 1 s, NAT timeouts >= 60 s); harness clients use the repository's packers."),
 
  "C18": ("DESIGN.md §6 C18",
